@@ -421,21 +421,25 @@ Qed.
    the bridge machine of C10 in front of the CSR tree machine of C06, fed with the relayed request), T1
    (C01_wb_sram_transfer), T2 at CSR-bus level (C01_wb_bridge_transfer) and at register level for every register
    of the tree in terms of the tree's root addresses (C01_wb_bridge_transfer_strobes; a bridge over a single
-   multiplexer is the tree of depth 0), the atomic read through bridge and tree (C01_wb_bridge_read_atomic), T3's link from the ROOT map to the premises of T1/T2
+   multiplexer is the tree of depth 0), the atomic read and write through bridge and tree
+   (C01_wb_bridge_read_atomic, C01_wb_bridge_write_atomic), T3's link from the ROOT map to the premises of T1/T2
    (C01_wb_decode_selects, _sram, _bridge).
 
    Still not proved:
-     - T2's WRITE-DATA clause at register level: "the w_data a register receives with its w_stb is the
-       concatenation of the dat_w lanes of its chunks".  What is proved: WHEN the register gets w_stb
-       (C01_wb_bridge_transfer_strobes) and that the CSR bus carries lane i of dat_w at t0+i
-       (C01_wb_bridge_transfer clause 2); C06_tree_write_atomic applies to that very trace `br_ctr` (its "no
-       other write in between" premises follow from clause 2 and the disjointness of reported ranges, as in the
-       proof of C01_wb_bridge_read_atomic) but the instantiation is not carried out here.  The READ-DATA clause
-       is proved: C01_wb_bridge_read_atomic.
      - T3 for registers behind a bridge is stated with the register's range in the map of the CSR TREE below the
        bridge (lc); C01_wb_decode_selects_bridge gives the translation of addresses (CSR address = ga - window
        start, and the tree reaches (i_res i, ga - i_start i) there), not the translation of whole `info` records
        of the ROOT map into those of the tree's map.
+     - T2 is stated for a request held THROUGH its acknowledge cycle ([t0, t0+R+1], what the Wishbone protocol
+       demands); C10_transfer needs it only on [t0, t0+R] ("whatever the initiator does in the acknowledge
+       cycle"): the bridge-side clauses (CSR accesses, ack, dat_r) would survive a different request at t0+R+1,
+       the frame clauses about the OTHER subordinates in that cycle would not (a new request may select one).
+     - the data clauses (C01_wb_bridge_read_atomic / _write_atomic) cover a register lying entirely inside the
+       addressed word with all its granules selected; registers spanning several words (several transfers) are
+       left to C06_tree_read_atomic / C06_tree_write_atomic on the trace `br_ctr` that C01_wb_bridge_projection
+       provides.
+     - w_stb below the OTHER bridges in cycle t0 itself is not claimed (it is decided by cycle t0-1: an aborted
+       transfer of another bridge may still deliver a registered w_stb at t0).
      - requests that change or drop cyc in the middle of a bridge transfer, and sparse / ratio > 1 windows outside
        wb_dom (as in rung 2). *)
 
@@ -680,6 +684,43 @@ Theorem C01_wb_bridge_read_atomic : forall h k bc ch s c mc lc, wbhw_wf h -> Pro
 Proof. exact bridge_read_atomic. Qed.
 Print Assumptions C01_wb_bridge_read_atomic.
 
+(* T2, write data (C05's atomic write through bridge and tree).  Same premises, a WRITE; i = a writable register
+   reported by the tree's map lying entirely inside the addressed word, all its granules selected; gf / ge = index
+   within the word of its first granule / of the granule after its last one.  Then gf < ge <= R, and in cycle
+   t0+ge (the cycle after its last chunk was written; strictly before the acknowledge cycle t0+R+1: "write side
+   effects have taken place by the time the acknowledge is seen") the register's element port shows w_stb and,
+   as w_data, the concatenation of the relayed dat_w lanes gf .. ge-1 clipped to the register's width
+   (`assemble`, C05_assemble_is_concatenation; each lane cut to the CSR data width, which does nothing to a
+   lane of a constructed bridge). *)
+Theorem C01_wb_bridge_write_atomic : forall h k bc ch s c mc lc, wbhw_wf h -> Proofs.WbCsrBridge.wf bc ->
+  nth_error (wh_subs h) k = Some (HBridge bc ch) -> nth_error (WbDecoder.c_subs (wh_cfg h)) k = Some s ->
+  csr_dom c -> csr_widths c -> csr_map c = Ok mc -> csr_hw c = Ok ch -> all_resources mc = Ok lc ->
+  WbCsrBridge.c_caw bc = csr_aw c ->
+  forall pre q rvs post, length rvs = (Proofs.WbCsrBridge.nratio bc + 2)%nat ->
+  WbDecoder.cyc q = true -> WbDecoder.stb q = true -> WbDecoder.selected (wh_cfg h) (WbDecoder.adr q) = Some k ->
+  Forall ack_low (wb_after h (map winit (wh_subs h)) pre) ->
+  (forall sk, nth_error (wb_after h (map winit (wh_subs h)) pre) k = Some sk -> sub_idle sk) ->
+  let R := Proofs.WbCsrBridge.nratio bc in
+  let tr := pre ++ held q rvs ++ post in
+  let t0 := length pre in
+  let so := sub_req (wh_cfg h) k s q in
+  let A := WbDecoder.o_adr so * WbCsrBridge.ratio bc in
+  WbDecoder.we q = true ->
+  0 <= WbDecoder.o_adr so -> (WbDecoder.o_adr so + 1) * WbCsrBridge.ratio bc <= 2 ^ WbCsrBridge.c_caw bc ->
+  forall i L kk r, In i lc -> reg_at (csr_aw c) ch i L kk r -> Mux.r_wr r = true ->
+  A <= i_start i -> i_end i <= A + WbCsrBridge.ratio bc ->
+  (forall gz, i_start i <= A + gz < i_end i -> Z.testbit (WbDecoder.o_sel so) gz = true) ->
+  let gf := Z.to_nat (i_start i - A) in
+  let ge := Z.to_nat (i_end i - A) in
+  (gf < ge <= R)%nat /\
+  exists o lo, nth_error (wb_run h (map winit (wh_subs h)) tr) (t0 + ge)%nat = Some o /\ wo_ack o = false /\
+    In lo (wo_leaves o) /\ lo_id lo = i_res i /\ lo_wstb lo = true /\
+    lo_wdata lo = assemble (csr_dw c) (Mux.r_width r)
+                    (fun j => trunc (csr_dw c) (WbCsrBridge.lane bc (Z.of_nat gf + j) (WbDecoder.o_dat_w so)))
+                    (Z.to_nat (i_end i - i_start i)).
+Proof. exact bridge_write_atomic. Qed.
+Print Assumptions C01_wb_bridge_write_atomic.
+
 (* the bridges of a constructed hierarchy meet T2's premises on the configuration *)
 Theorem C01_wb_constructed_bridge : forall r m h j o sp n wn w g bc ch, wb_dom r -> wbroot_map r = Ok m ->
   sub_is r m h j o sp n wn w g (HBridge bc ch) ->
@@ -826,4 +867,10 @@ Qed.
 Example C01_wb_rung3_read_rhs :
   map (fun g => WbCsrBridge.lane {| WbCsrBridge.c_r := 1; WbCsrBridge.c_caw := 2; WbCsrBridge.c_g := 8 |} g 2748) [0; 1] =
   map (fun g => trunc 8 (Mux.word 8 12 (g - 0) (trunc 12 (nth 0 [2748; 0] 0)))) [0; 1].
+Proof. vm_compute. reflexivity. Qed.
+
+(* ... and of C01_wb_bridge_write_atomic for the write (register 0: gf = 0, ge = 2, 12 bits): w_data 0xBCD in cycle 4 *)
+Example C01_wb_rung3_write_rhs :
+  assemble 8 12 (fun j => trunc 8 (WbCsrBridge.lane {| WbCsrBridge.c_r := 1; WbCsrBridge.c_caw := 2; WbCsrBridge.c_g := 8 |}
+                                                    (0 + j) 43981)) 2 = 3021.
 Proof. vm_compute. reflexivity. Qed.
